@@ -1,5 +1,25 @@
-(* Properties/C11.v — weighted graph.  Statements only. *)
-From Verif Require Import Base.Str Base.Outcome Model.Ast Model.WGraph Model.WWeights.
+(* Properties/C11.v — wildcard sets are exactly the reachable public types.  Statements only; proofs in
+   Proofs/WildcardProofs.v.  Proved for all inputs: the two list operations through which every wildcard
+   list of AssignWeights is built (merge, add-if-absent) keep lists duplicate-free and compute exactly the
+   union; the wildcard node T:* contributes T.  The global statement — after weight assignment the list of
+   every node and edge is the set of T with T:* reachable — is not proved; it is checked on every run,
+   per explicit start order and on cyclic models too, by reachability on the built graph
+   (run/lib/graphspec.reach_wild), with known finding K-WG-cycles delimiting the models where the
+   unmodified algorithm is order-dependent. *)
+From Verif Require Import Base.Str Base.Outcome Model.Ast Model.Printer Model.WGraph Model.WWeights
+  Proofs.WildcardProofs Proofs.WeightsProofs.
 
-Theorem C11_empty_model : forall s, build_weighted None {| m_schema := s; m_types := []; m_conds := [] |} = Ok empty_graph.
-Proof. reflexivity. Qed.
+Theorem C11_merge_keeps_duplicate_free : forall into from, NoDup into -> NoDup from -> NoDup (merge_wild into from).
+Proof. exact merge_wild_NoDup. Qed.
+
+Theorem C11_merge_is_union : forall into from y, In y (merge_wild into from) <-> In y into \/ In y from.
+Proof. exact merge_wild_spec. Qed.
+
+Theorem C11_add_keeps_duplicate_free : forall x l, NoDup l -> NoDup (add_unique x l).
+Proof. exact add_unique_NoDup. Qed.
+
+Theorem C11_wildcard_node_names_its_type : forall id, drop_last2 (id ++ lit ":*") = id.
+Proof. exact wildcard_edge_label. Qed.
+
+Theorem C11_total : forall o m, is_panic (build_weighted o m) = false.
+Proof. exact build_weighted_no_panic. Qed.
